@@ -124,3 +124,204 @@ def random_masks(rng, draw, n_steps, owner_by_param=None, allow_starvation=True)
             cur[gi][pi] = not cur[gi][pi]
         masks.append(copy.deepcopy(cur))
     return masks
+
+
+# ------------------------------------------------------------------------------------------------------------------
+# FSDP / HSDP (flat shards + metadata) and fully_shard / hybrid shard (dim-0 sharded DTensors)
+def full_tensors(task):
+    gen = torch.Generator().manual_seed(task["draw"]["seed"])
+    return [torch.randn(tuple(s), generator=gen, dtype=torch.float64).to(torch.float32) for s in task["shapes"]]
+
+
+def full_grad(task, i, t):
+    gen = torch.Generator().manual_seed(hash((task["draw"]["seed"], i, t)) % (2 ** 31))
+    return torch.randn(tuple(task["shapes"][i]), generator=gen, dtype=torch.float64).to(torch.float32)
+
+
+def serial_on_pieces(task, k, comm="fp32", comm_params=False):
+    """The oracle of C07/C08: the single-process optimizer on the sub-tensors the spec says shard rank k holds, taken as
+    independent parameters (one group, same order), communicated quantity rounded through `comm`."""
+    from distributed_shampoo.shampoo_types import DISTRIBUTOR
+    fulls = full_tensors(task)
+    pieces = task["pieces"][k]          # per param: list of {off, len, shp}
+    params, owner = [], []
+    for i, ps in enumerate(pieces):
+        for p in ps:
+            params.append(torch.nn.Parameter(fulls[i].reshape(-1)[p["off"]:p["off"] + p["len"]].view(tuple(p["shp"])).clone()))
+            owner.append((i, p))
+    if not params:
+        return None
+    opt, _ = realopt.build(task["draw"], params=[params])
+    cdt = COMM[comm][0]
+    d = opt._per_group_state_lists[0][DISTRIBUTOR]
+
+    def update_params(masked_blocked_search_directions, d=d):
+        ps = d.local_masked_blocked_params
+        if comm_params:
+            torch._foreach_add_(ps, masked_blocked_search_directions)
+            for p in ps:
+                p.copy_(p.to(cdt).to(p.dtype))
+        else:
+            torch._foreach_add_(ps, [u.to(cdt).to(u.dtype) for u in masked_blocked_search_directions])
+    d.update_params = update_params
+    out = []
+    for t, m in enumerate(task["masks"], start=1):
+        for prm, (i, p) in zip(params, owner):
+            prm.grad = full_grad(task, i, t).reshape(-1)[p["off"]:p["off"] + p["len"]].view(tuple(p["shp"])).clone() if m[i] else None
+        opt.step()
+        # per original parameter: the shard's content = concatenation of its pieces
+        per_param = []
+        for i in range(len(task["shapes"])):
+            chunks = [prm.detach().reshape(-1) for prm, (j, _) in zip(params, owner) if j == i]
+            per_param.append(realopt.tensor_hash(torch.cat(chunks)) if chunks else "empty")
+        out.append(per_param)
+    return out
+
+
+def fsdp_rank_fn(task, hsdp=False):
+    def fn(rank, world):
+        from torch.distributed.fsdp import ShardingStrategy
+        from distributed_shampoo.shampoo_types import (CommunicationDType, DISTRIBUTOR, FSDPParameterMetadata, FSDPShampooConfig,
+                                                       HSDPShampooConfig)
+        torch.set_num_threads(1)
+        S = task["S"]
+        k = rank % S
+        fulls = full_tensors(task)
+        params, meta = [], {}
+        for i, (s, e) in enumerate(task["shards"][k]):
+            p = torch.nn.Parameter(fulls[i].reshape(-1)[s:e].clone())
+            params.append(p)
+            meta[p] = FSDPParameterMetadata(fqn=f"p{i}", shape=torch.Size(task["shapes"][i]), numel=int(fulls[i].numel()),
+                                            start_idx=s, end_idx=e, sharding_strategy=ShardingStrategy.FULL_SHARD)
+        if hsdp:
+            from torch.distributed.device_mesh import init_device_mesh
+            mesh = init_device_mesh("cpu", (task["R"], S), mesh_dim_names=("replicate", "shard"))
+            cfg = HSDPShampooConfig(param_to_metadata=meta, device_mesh=mesh,
+                                    communication_dtype=getattr(CommunicationDType, COMM[task["comm"]][1]),
+                                    num_trainers_per_group=task["GS"], communicate_params=task["comm_params"])
+        else:
+            cfg = FSDPShampooConfig(param_to_metadata=meta)
+        opt, _ = realopt.build(task["draw"], params=[params], distributed_config=cfg)
+        d = opt._per_group_state_lists[0][DISTRIBUTOR]
+        info = {"selector": list(d._distributor_selector), "blocks_per_param": list(d._global_num_blocks_per_param),
+                "seg": int(d._local_dist_buffer.numel()) if hasattr(d, "_local_dist_buffer") else 0,
+                "block_keys": [bi.composable_block_ids[1] for bi in d.local_block_info_list]}
+        world.partial.setdefault(rank, {})["info"] = info
+        hashes = world.partial[rank].setdefault("hashes", [])
+        for t, m in enumerate(task["masks"], start=1):
+            for i, p in enumerate(params):
+                s, e = task["shards"][k][i]
+                p.grad = full_grad(task, i, t).reshape(-1)[s:e].clone() if m[i] else None
+            opt.step()
+            hashes.append([realopt.tensor_hash(p) if p.numel() else "empty" for p in params])
+        return True
+    return fn
+
+
+def run_shard_task(task):
+    """FSDP (W = S) or HSDP (W = R*S) on simulated ranks vs. the serial optimizer on the spec's recovered pieces."""
+    import logging
+    logging.disable(logging.WARNING)
+    torch.set_num_threads(1)
+    try:
+        hsdp = task["kind"] == "hsdp"
+        W = task["S"] * (task["R"] if hsdp else 1)
+        oracles = [serial_on_pieces(task, k, task.get("comm", "fp32"), task.get("comm_params", False)) for k in range(task["S"])]
+        world = simdist.run_world(W, fsdp_rank_fn(task, hsdp), seed=task.get("seed", 0))
+        res = {"verdict": world.verdict[0] if world.verdict else None,
+               "errors": {str(k): v[:500] for k, v in world.errors.items()},
+               "logs": [dict(zip(("created", "gathers"), split_log(world.logs[r]))) for r in range(W)],
+               "info": {str(r): world.partial[r]["info"] for r in world.partial if "info" in world.partial[r]}}
+        mism = []
+        for r in range(W):
+            if r not in world.partial:
+                continue
+            orc = oracles[r % task["S"]]
+            if orc is None:
+                continue
+            for t, (a, b) in enumerate(zip(world.partial[r].get("hashes", []), orc), start=1):
+                if a != b:
+                    mism.append({"rank": r, "step": t, "params": [i for i, (x, y) in enumerate(zip(a, b)) if x != y]})
+                    break
+        res["param_mismatch"] = mism
+        return res
+    except Exception:
+        import traceback
+        return {"crash": traceback.format_exc()}
+
+
+def dtensor_rank_fn(task, hybrid=False):
+    def fn(rank, world):
+        from torch.distributed.device_mesh import init_device_mesh
+        from torch.distributed.tensor import DTensor, Replicate, Shard
+        from distributed_shampoo.shampoo_types import CommunicationDType, DISTRIBUTOR, FullyShardShampooConfig, HybridShardShampooConfig
+        torch.set_num_threads(1)
+        S = task["S"]
+        fulls = full_tensors(task)
+        if hybrid:
+            mesh = init_device_mesh("cpu", (task["R"], S), mesh_dim_names=("replicate", "shard"))
+            place = [Replicate(), Shard(0)]
+            cfg = HybridShardShampooConfig(device_mesh=mesh, communication_dtype=getattr(CommunicationDType, COMM[task["comm"]][1]),
+                                           num_trainers_per_group=task["GS"], communicate_params=task["comm_params"])
+        else:
+            mesh = init_device_mesh("cpu", (S,))
+            place = [Shard(0)]
+            cfg = FullyShardShampooConfig()
+        k = rank % S
+
+        def local_of(full, i):
+            """this rank's dim-0 slab, built WITHOUT collectives (DTensor.from_local) from the spec's Dim0Pieces"""
+            pcs = task["pieces"][k][i]
+            if pcs:
+                loc = full.reshape(-1)[pcs[0]["off"]:pcs[0]["off"] + pcs[0]["len"]].view(tuple(pcs[0]["shp"])).clone()
+            else:
+                loc = torch.zeros((0,) + tuple(full.shape[1:]), dtype=full.dtype)
+            return DTensor.from_local(loc, mesh, place, run_check=False, shape=full.shape, stride=full.stride())
+        params = [torch.nn.Parameter(local_of(f, i)) for i, f in enumerate(fulls)]
+        opt, _ = realopt.build(task["draw"], params=[params], distributed_config=cfg)
+        d = opt._per_group_state_lists[0][DISTRIBUTOR]
+        info = {"selector": list(d._distributor_selector), "blocks_per_param": list(d._global_num_blocks_per_param),
+                "seg": int(d._local_dist_buffer.numel()) if hasattr(d, "_local_dist_buffer") else 0,
+                "block_keys": [bi.composable_block_ids[1] for bi in d.local_block_info_list],
+                "nonempty": [int(p.to_local().numel() > 0) for p in params]}
+        world.partial.setdefault(rank, {})["info"] = info
+        hashes = world.partial[rank].setdefault("hashes", [])
+        for t, m in enumerate(task["masks"], start=1):
+            for i, p in enumerate(params):
+                p.grad = local_of(full_grad(task, i, t), i) if m[i] else None
+            opt.step()
+            hashes.append([realopt.tensor_hash(p.to_local()) if p.to_local().numel() else "empty" for p in params])
+        return True
+    return fn
+
+
+def run_dtensor_task(task):
+    """fully_shard (W = S) or hybrid shard (W = R*S) on simulated ranks vs. the serial optimizer on the local shards."""
+    import logging
+    logging.disable(logging.WARNING)
+    torch.set_num_threads(1)
+    try:
+        hybrid = task["kind"] == "hybrid"
+        W = task["S"] * (task["R"] if hybrid else 1)
+        oracles = [serial_on_pieces(task, k, task.get("comm", "fp32"), task.get("comm_params", False)) for k in range(task["S"])]
+        world = simdist.run_world(W, dtensor_rank_fn(task, hybrid), seed=task.get("seed", 0))
+        res = {"verdict": world.verdict[0] if world.verdict else None,
+               "errors": {str(k): v[:500] for k, v in world.errors.items()},
+               "logs": [dict(zip(("created", "gathers"), split_log(world.logs[r]))) for r in range(W)],
+               "info": {str(r): world.partial[r]["info"] for r in world.partial if "info" in world.partial[r]}}
+        mism = []
+        for r in range(W):
+            if r not in world.partial:
+                continue
+            orc = oracles[r % task["S"]]
+            if orc is None:
+                continue
+            for t, (a, b) in enumerate(zip(world.partial[r].get("hashes", []), orc), start=1):
+                if a != b:
+                    mism.append({"rank": r, "step": t, "params": [i for i, (x, y) in enumerate(zip(a, b)) if x != y]})
+                    break
+        res["param_mismatch"] = mism
+        return res
+    except Exception:
+        import traceback
+        return {"crash": traceback.format_exc()}
